@@ -141,3 +141,77 @@ def internal(obj, name):
         return getattr(obj, name)
     except AttributeError:
         raise HarnessError("nauyaca internal %r.%s is gone: harness needs updating" % (type(obj).__name__, name))
+
+
+class ModProxy:
+    """module stand-in: listed names come from ``table``, everything else from the real module"""
+
+    def __init__(self, real, table):
+        self.__dict__["_real"] = real
+        self.__dict__["_table"] = table
+
+    def __getattr__(self, name):
+        t = self.__dict__["_table"]
+        if name in t:
+            return t[name]
+        return getattr(self.__dict__["_real"], name)
+
+
+def rebind(mod, real, table):
+    """Substitute environment functions inside module ``mod`` however it spells its imports: a global that is the
+    module ``real`` (``import ipaddress``) becomes a proxy serving ``table``; a global that is one of ``real``'s own
+    attributes named in ``table`` (``from ipaddress import ip_network``) becomes the table entry.  Returns the undo
+    list for ``unbind``.  Keeps stubs independent of import style, which a refactoring may change freely."""
+    undo = []
+    byid = {}
+    for k, v in table.items():
+        if hasattr(real, k):
+            byid[id(getattr(real, k))] = v
+    for name, val in list(vars(mod).items()):
+        if name.startswith("__"):
+            continue
+        if val is real:
+            new = ModProxy(real, table)
+        elif id(val) in byid:
+            new = byid[id(val)]
+        else:
+            continue
+        undo.append((mod, name, val))
+        setattr(mod, name, new)
+    return undo
+
+
+def unbind(undo):
+    for mod, name, val in reversed(undo):
+        setattr(mod, name, val)
+
+
+_BOUND = {}
+
+
+def bind(mod, real, stub, required=True):
+    """(Re)install ``stub`` for the environment module ``real`` (asyncio, time, sqlite3, ...) inside the nauyaca module
+    ``mod``, whichever way ``mod`` imports it (see rebind).  ``stub`` is a dict or an object whose public attributes are
+    the substituted names.  If ``mod`` does not reference ``real`` at all the stub cannot engage: with ``required`` that
+    is a machinery problem (exit 3) -- the harness would otherwise drive a clock or a loop nobody reads."""
+    key = (mod.__name__, real.__name__)
+    if key in _BOUND:
+        unbind(_BOUND.pop(key))
+    if isinstance(stub, dict):
+        table = stub
+    else:
+        table = {}
+        for k in dir(stub):
+            if not k.startswith("_"):
+                table[k] = getattr(stub, k)
+    undo = rebind(mod, real, table)
+    if not undo and required:
+        raise HarnessError("%s does not reference %s any more: stub cannot engage" % (mod.__name__, real.__name__))
+    _BOUND[key] = undo
+    return undo
+
+
+def release(mod, real):
+    key = (mod.__name__, real.__name__)
+    if key in _BOUND:
+        unbind(_BOUND.pop(key))
